@@ -315,6 +315,7 @@ type Options struct {
 	FS            vfs.FS   // default vfs.NewMem()
 	Dir           string   // default "db"
 	GenesisTime   uint32   // if non-zero, fixed genesis timestamp (replays / crash enumeration re-runs)
+	NoInit        bool     // New only opens the database; the caller runs n.Reattach() (= Executer.Init: genesis step, PrepareCache)
 	Listen        bool     // give the Executer's p2p connection a loopback listen address (StartNet starts it); default: unstarted
 	Weights       []uint64 // BFT weight per genesis validator (default 1 each); unequal weights give finality jumps
 }
@@ -418,6 +419,9 @@ func New(opt Options) (*Node, error) {
 		return nil, err
 	}
 	n.DB = d
+	if opt.NoInit {
+		return n, nil
+	}
 	if err := n.Reattach(); err != nil {
 		return nil, err
 	}
